@@ -109,7 +109,7 @@ func boolConstArg(c *ssa.Call) (bool, bool) {
 }
 
 // checkJsonScheduling: R16.4.
-func (w *World) checkJsonScheduling(P string, pull *ssa.Function) {
+func (w *World) checkJsonScheduling(P string, pull *ssa.Function, scope *pullScope) {
 	docRule(P, "R16.4", "D state machine guards", "member-end scheduling of the JSON adapter. (a) Pull first delivers a pending end event: when the pending-end flag of the current state is set it is cleared and (nil, end) is returned before any token is read. (b) '}' and ']' pop first and then, iff the enclosing state is an object that was expecting a value, set its pending-end flag (the member element must be closed after its container value). (c) '{' and '[' inside an object mark the enclosing member as 'value seen' before pushing. (d) a scalar in object state is a key iff the state expects a key: then it clears the flag and returns an element; otherwise it is the member's value: the state goes back to expecting a key and the pending-end flag is set, and a character-data node is returned. (Guards of the transitions, not a proof of the alternation automaton.)")
 	jr := w.jsonRolesOf(pull)
 	if jr.push == nil || jr.pop == nil || len(jr.setter) < 2 || len(jr.getter) < 2 {
@@ -157,7 +157,7 @@ func (w *World) checkJsonScheduling(P string, pull *ssa.Function) {
 			keyField = f
 		}
 	}
-	arms := constStringArms(pull)
+	arms := scope.arms()
 	setCalls := func(blocks []*ssa.BasicBlock, field string, val bool) []*ssa.Call {
 		var out []*ssa.Call
 		for _, c := range callsUnder(blocks) {
@@ -231,7 +231,7 @@ func (w *World) checkJsonScheduling(P string, pull *ssa.Function) {
 	}
 	// (d) scalar in object state
 	keyOK, valOK := false, false
-	allInstrs(pull, func(in ssa.Instruction) {
+	scope.all(func(in ssa.Instruction) {
 		c, ok := in.(*ssa.Call)
 		if !ok || jr.setter[staticCallee(c)] != keyField {
 			return
@@ -242,7 +242,7 @@ func (w *World) checkJsonScheduling(P string, pull *ssa.Function) {
 		}
 		inArm := false
 		for _, ifi := range arms {
-			if ifi.Block().Succs[0].Dominates(c.Block()) {
+			if ifi.Parent() == c.Parent() && ifi.Block().Succs[0].Dominates(c.Block()) {
 				inArm = true
 			}
 		}
@@ -251,11 +251,15 @@ func (w *World) checkJsonScheduling(P string, pull *ssa.Function) {
 		}
 		if !v && guardedByGetter(c, keyField, true) {
 			// followed by a return of an element
-			for _, b := range pull.Blocks {
+			for _, b := range c.Parent().Blocks {
 				if c.Block() == b || c.Block().Dominates(b) {
 					for _, in2 := range b.Instrs {
-						if ret, ok := in2.(*ssa.Return); ok && len(ret.Results) == 3 {
-							if mi, ok := ret.Results[0].(*ssa.MakeInterface); ok && w.implementsNode(mi.X.Type(), "Element") && !w.implementsNode(mi.X.Type(), "Attribute") {
+						if ret, ok := in2.(*ssa.Return); ok {
+							retNode, _, okR := scope.effRet(ret)
+							if !okR {
+								continue
+							}
+							if mi, ok := retNode.(*ssa.MakeInterface); ok && w.implementsNode(mi.X.Type(), "Element") && !w.implementsNode(mi.X.Type(), "Attribute") {
 								keyOK = true
 							}
 						}
